@@ -108,7 +108,8 @@ def _ef_replay(enc):
     from pyvc.replay import py_replay
     return py_replay("from passlib.apache import HtpasswdFile", f"r = HtpasswdFile(encoding={enc!r})._encode_field(V['value'], 'user')",
                      f"(isinstance(exc, ValueError) if (len(V['value'].encode({enc!r}, 'replace')) > 255 or any(c in V['value'] for c in ':\\n\\r\\t\\0')) else (exc is None and r == V['value'].encode({enc!r})))",
-                     {"value": "user"}, search=lambda seed: [{"value": v} for v in ("\u00e9" * 128, "\u00e9" * 127 + "ab", "a" * 255, "a" * 256, "\u00e9" * 200, "x:y", "ok")])
+                     {"value": "user"}, search=lambda seed: [{"value": v} for v in ("\u00e9" * 128, "\u00e9" * 127 + "ab", "a" * 255, "a" * 256, "\u00e9" * 200, "x:y", "ok",
+                                                                                         "eve\n", "\neve", "e\nve", "eve\r", "eve\t", "eve\x00", "\n", ":", "eve:")])
 
 
 encode_field_text = [
